@@ -37,7 +37,7 @@ cat $OUT/seed.log; grep -q FAIL $OUT/seed.log && fail=1
 echo "== 4. reverted fixes"
 grep '"kind": *"fixed"' known_findings.jsonl | python3 -c "
 import sys,json
-skip={'fbaeeb8','18fc74f','ea202fa'}  # cannot be reverted on their own (later fixes build on them); covered by mutants C05-merge-unisolated, C05-new-goroutine, C15-* and seeds C06-a, C05-a, C15-a/d
+skip={'fbaeeb8','18fc74f','ea202fa','0baa085'}  # cannot be reverted on their own (later fixes build on them); covered by mutants C05-merge-unisolated, C05-new-goroutine, C15-*, C15-readstr-aliased, C15-quoted-ident-aliased and seeds C06-a, C05-a, C15-a/d
 for l in sys.stdin:
     o=json.loads(l)
     if o['commit'] in skip: continue
